@@ -118,6 +118,36 @@ theorem C09_counterexample_forget_first :
     let stuck : W := { id := 1, alive := true, stuck := true }
     (restartWorkers cfg [stuck] [.raises]).1 = [] := by decide
 
+/-- **Ctrl-C while `close()` is waiting.** The join of the clean-up threads is interrupted (they are aborted, nobody is known
+    to be dead) and the exception travels on; leaving the `with` block calls `terminate()` - or the user calls it. Because the
+    pool is marked closed only *behind* the join, that second call does the whole job again: afterwards the pool is closed and
+    no registered worker is alive. Any number of interrupted attempts may come first. -/
+def interruptedTimes (cfg : Cfg) : Nat → PoolSt → PoolSt
+  | 0, s => s
+  | k + 1, s => interruptedTimes cfg k (closeInterrupted cfg s)
+
+theorem C09_interrupted_close (reg : Reg) (k : Nat) (force : Option Bool) (hf : force ≠ some false) (graceful : Bool) :
+    let s1 := interruptedTimes Gen.regCfg k ⟨reg, false⟩
+    let s2 := closePool Gen.regCfg force graceful s1
+    s2.closed = true ∧ ∀ w ∈ s2.reg, w.alive = false := by
+  have hm : Gen.regCfg.closeMarksAfterJoin = true := by decide
+  have hk : interruptedTimes Gen.regCfg k ⟨reg, false⟩ = ⟨reg, false⟩ := by
+    induction k with
+    | zero => rfl
+    | succ k ih =>
+      simp only [interruptedTimes]
+      have : closeInterrupted Gen.regCfg ⟨reg, false⟩ = ⟨reg, false⟩ := by simp [closeInterrupted, hm]
+      rw [this]; exact ih
+  simp only [hk, closePool, Bool.and_false, Bool.false_eq_true, if_false, true_and]
+  exact C09_close_kills_all reg force hf graceful
+
+/-- marking the pool closed on the interrupted path as well (seeded change C09-E): the `terminate()` of `__exit__` becomes a
+    no-op and a stuck worker outlives the pool -/
+theorem C09_counterexample_closed_in_finally :
+    let cfg : Cfg := { Gen.regCfg with closeMarksAfterJoin := false }
+    let stuck : W := { id := 1, alive := true, stuck := true }
+    closePool cfg none false (closeInterrupted cfg ⟨[stuck], false⟩) = ⟨[stuck], true⟩ := by decide
+
 example : closeAll Gen.regCfg none true [{ id := 1, alive := true, stuck := true }, { id := 2, alive := true, stuck := false }]
     = [{ id := 1, alive := false, stuck := true }, { id := 2, alive := false, stuck := false }] := by decide
 /-- with forced termination explicitly disabled a stuck worker survives `close()` - allowed by the property -/
